@@ -1,5 +1,6 @@
 (* C08 — caches actually memoise: hits run nothing upstream, LRU stays bounded, shards partition. *)
 From Connectome Require Import Values Attrs VM Edges EdgesGen Store MiscGen StoreFacts Lru.
+From Connectome Require ColStore ColumnsGen Columns ColumnsFacts EqFacts.
 Local Open Scope list_scope.
 
 (* A size-bounded RAM cache never holds more than `size` entries, after ANY list of get / set / clear operations.
@@ -62,3 +63,29 @@ Example C08_example_shards :
   /\ shard_keys ["a"; "b"; "c"; "d"; "e"; "f"; "g"] 3 (shard_idx 4 3) = ["d"; "e"; "f"] /\ shard_count 7 3 = 3.
 Proof. vm_compute. auto. Qed.
 Print Assumptions C08_example_shards.
+
+(* ---------- column caches: after a request, every key of its shard is a hit that runs nothing ----------
+   After a successful request that missed the RAM table, a request of ANY key of the same shard on the same layer
+   object returns from the RAM table: it runs the hash pass of its own entry (the calling VM needs the hash to look
+   the entry up) and nothing else - not the ids, not the key, no value of any entry, whatever `ids` has become.
+   Over the REGENERATED body of CachedColumn.evaluate; assumptions as in C04_column_caches_are_transparent. *)
+Theorem C08_column_shard_hits :
+  forall (sorted : list val -> list val) (get_hash : nat -> val -> option nhash) (get_value : nat -> val -> option val)
+         (h : nat -> val -> nhash) (v : nat -> val -> val),
+  (forall c k x, get_hash c k = Some x -> x = h c k) ->
+  (forall c k x, get_value c k = Some x -> x = v c k) ->
+  (forall c k c' k', hpyeq (h c k) (h c' k') = true -> v c k = v c' k') ->
+  (forall c k c' ks, h c k <> ColumnsFacts.compound (map (h c') ks)) ->
+  forall col size key keys st v0 st' ev ks c i,
+  ColumnsFacts.exact_key pyeq key ->
+  ColumnsGen.get_shard pyeq sorted size key keys = inr (ks, c, i) ->
+  ColStore.ram_get hpyeq st (h col key) = None ->
+  Columns.column_request hpyeq heqb pyeq sorted get_hash get_value col size key keys st = (ColStore.COk v0, st', ev) ->
+  ColumnsFacts.Inv h v st ->
+  forall key' keys', In key' ks -> get_hash col key' = Some (h col key') ->
+  exists x, Columns.column_request hpyeq heqb pyeq sorted get_hash get_value col size key' keys' st' = (ColStore.COk x, st', [ColStore.CHash col key']).
+Proof.
+  intros sorted get_hash get_value h v H1 H2 H3 H4.
+  exact (ColumnsFacts.column_shard_hits hpyeq heqb pyeq sorted get_hash get_value h v EqFacts.hpyeq_refl EqFacts.heqb_eq H1 H2 H3 H4).
+Qed.
+Print Assumptions C08_column_shard_hits.
